@@ -574,6 +574,14 @@ def _misc():
                          f"misc::capacity::<{ty}, {n}>({opx}, {amt}, {B[huge]})", kind, n + 1, {"C17": t}, "STEP",
                          meta=dict(op=opn, kind=kind, n=n, additional=amt), covers_required=False,
                          cost=(n + 1) * (40 if dq else 6), unwind_min=n + 10)
+                    if n in (1, 3) and tag in ("1", "5", "x"):
+                        # pre-states with no / more unused capacity than the default two slots
+                        for sp in (0, 4):
+                            inst(f"cap_{kind}_{opn}_n{n}_{tag}_s{sp}",
+                                 f"misc::capacity_spare::<{ty}, {n}>({opx}, {amt}, {B[huge]}, {sp})", kind, n + 1,
+                                 {"C17": QUICK if (n == 1 and not (dq and tag == "1")) else THOROUGH}, "STEP",
+                                 meta=dict(op=opn, kind=kind, n=n, additional=amt, spare_capacity=sp), covers_required=False,
+                                 cost=(n + 1) * (40 if dq else 6), unwind_min=n + 10)
 
 
 _misc()
